@@ -378,16 +378,23 @@ structure Caller where
   valid : List String
   /-- every name passed to `clear_caller_register`, in order (observation only) -/
   clears : List String
+  /-- every successful `set_caller_register(name, value)` call, in order (observation only) -/
+  log : List (String × Nat)
   deriving Repr
 
-/-- `CfiStackWalker::set_caller_register` -/
-def Caller.set (c : Caller) (name : String) (v : Nat) : Option Caller :=
+/-- the effect of `CfiStackWalker::set_caller_register` (also of `set_cfa` / `set_ra`, which name
+    `esp` / `eip`): fails on a name the context does not know and on a value ≥ 2^32 -/
+def Caller.setCore (c : Caller) (name : String) (v : Nat) : Option Caller :=
   if name ∈ x86Regs then
     if v ≤ U32MAX then
       some { c with vals := c.vals.set name (UInt32.ofNat v),
                     valid := if name ∈ c.valid then c.valid else name :: c.valid }
     else none
   else none
+
+/-- `CfiStackWalker::set_caller_register`, recording the call -/
+def Caller.set (c : Caller) (name : String) (v : Nat) : Option Caller :=
+  (c.setCore name v).map fun c' => { c' with log := c'.log ++ [(name, v)] }
 
 /-- `CfiStackWalker::clear_caller_register`: memoise the name, remove it from the validity set;
     a name the context does not know (`"$ebx"`) removes nothing. -/
@@ -405,7 +412,7 @@ def clearAll (names : List String) (c : Caller) : Caller := names.foldl Caller.c
 /-- initial state of the caller in `CfiStackWalker::from_ctx_and_args` for x86: the context is a
     clone of the callee's, the validity set holds the callee-saved registers valid in the callee -/
 def Caller.init (calleeVals : Vars) (calleeValid : String → Bool) : Caller :=
-  { vals := calleeVals, valid := x86CalleeSaved.filter calleeValid, clears := [] }
+  { vals := calleeVals, valid := x86CalleeSaved.filter calleeValid, clears := [], log := [] }
 
 /-- apply the `set_caller_register(..)?` calls of a plan in order -/
 def applySets : Caller → List (String × Nat) → Bool × Caller
@@ -514,7 +521,7 @@ def walkSelected (names : List String) (fd fpo : Option SInfo)
 
   `win walk base:<hex> instr:<hex> gc:<0|1>:<hex> cfi:<0|1> regs:<name=hex,..|-> mem:<hexbase>:<hexbytes|->
             (rec:<ty>:<addr>:<size>:<par>:<sav>:<loc>:<hp>:<hex(rest)>)*`
-  answer: `none` | `some <name>=<hex>,.. clears:<name>,..` | `PANIC`
+  answer: `none` | `some <name>=<hex>,.. sets:<name>=<hex>,.. clears:<name>,..` | `PANIC`
   (valid caller registers in alphabetical order).  The CFI record of a case is the fixed
   `STACK CFI INIT 0 ffffffff .cfa: 4096 .ra: 8192` (covers module offsets `0 .. 2^32-2`).
 -/
@@ -575,14 +582,15 @@ def lookup (t : List RangeMap.Entry) (addr : Nat) : Option Nat :=
   (RangeMap.get t addr).map fun v => (RangeMap.Rec.dec v).tag
 
 /-- the fixed CFI record of the protocol: `.cfa: 4096 .ra: 8192` ⇒ `set_cfa(4096)?; set_ra(8192)?` -/
-def cfiConst (c : Caller) : Option Caller := (c.set "esp" 4096).bind fun c => c.set "eip" 8192
+def cfiConst (c : Caller) : Option Caller := (c.setCore "esp" 4096).bind fun c => c.setCore "eip" 8192
 
 def showCaller (c : Caller) : String :=
   let names := ["eax", "ebp", "ebx", "ecx", "edi", "edx", "eflags", "eip", "esi", "esp"]
   let regs := names.filterMap fun n =>
     if n ∈ c.valid then some (n ++ "=" ++ natToHex ((c.vals.get n).getD 0).toNat) else none
-  "some " ++ (if regs.isEmpty then "-" else joinWith "," regs) ++ " clears:" ++
-    (if c.clears.isEmpty then "-" else joinWith "," c.clears)
+  "some " ++ (if regs.isEmpty then "-" else joinWith "," regs) ++ " sets:" ++
+    (if c.log.isEmpty then "-" else joinWith "," (c.log.map fun (n, v) => n ++ "=" ++ natToHex v)) ++
+    " clears:" ++ (if c.clears.isEmpty then "-" else joinWith "," c.clears)
 
 def handleWalk (args : List String) : String :=
   match args with
